@@ -209,6 +209,9 @@ struct Obs {
     after_remove: bool,
     /// source block length carried by the FEC payload ID (FEC ID 129)
     sbl: Option<u32>,
+    /// FNV-64 of the whole datagram / of what precedes the payload (LCT header, extensions, FEC payload ID)
+    dfull: u64,
+    dhead: u64,
 }
 
 struct Sess {
@@ -552,7 +555,10 @@ impl BencEngine {
                 continue;
             }
             RAW.lock().unwrap().push(fnv64(&d));
-            let ob = Obs { sbn: dec.sbn, esi: dec.esi, payload: dec.payload, a: dec.close_session, b: dec.close_object, after_remove: s.removed, sbl: dec.sbl };
+            let ob = Obs { sbn: dec.sbn, esi: dec.esi, payload: dec.payload, a: dec.close_session, b: dec.close_object, after_remove: s.removed, sbl: dec.sbl, dfull: 0, dhead: 0 };
+            let mut ob = ob;
+            ob.dfull = fnv64(&d);
+            ob.dhead = fnv64(&d[..d.len() - ob.payload.len()]);
             s.trace.push(ob.clone());
             return Ok(Some(ob));
         }
@@ -567,7 +573,10 @@ impl BencEngine {
             Some(v) => v.to_string(),
             None => "-".to_string(),
         };
-        format!("{},{},{},{},{},{},{}", ob.sbn, ob.esi, len, h, sbl, ob.a as u8, ob.b as u8)
+        // the datagram itself, compared with the model's `Alc.newAlcPkt file.oti 0 tsi (toAlc p)`: whole for source symbols,
+        // up to the payload for repair symbols
+        let dh = if (ob.esi as u64) < k { ob.dfull } else { ob.dhead };
+        format!("{},{},{},{},{},{},{},{:016x}", ob.sbn, ob.esi, len, h, sbl, ob.a as u8, ob.b as u8, dh)
     }
 }
 
